@@ -214,7 +214,7 @@ Definition parse_dec_body (neg : bool) (s : bytes) : option dec :=
     end in
   if nd =? 0 then None else
   match r2 with
-  | [] => Some (fit neg c (- nf))
+  | [] => match fit neg c (- nf) with DInf _ => None (* range error *) | d => Some d end
   | b :: r =>
     if (b =? 101) || (b =? 69) then
       let '(eneg, r') := match r with 45 :: t => (true, t) | 43 :: t => (false, t) | _ => (false, r) end in
